@@ -153,7 +153,35 @@ def fam_shadow(tier, rng):
     return out
 
 
-FAMILIES = [fam_const, fam_suffix, fam_chain, fam_shadow]
+def fam_constarg(tier, rng):
+    """a constant as an ARGUMENT of a call (user SUB, user FUNCTION) - at module level and inside a subprogram,
+    for module-level and local constants: the callee sees the constant's value (by value: constants are not variables)"""
+    out = []
+    for t, v in (("I", 10), ("L", 70000), ("D", 3)):
+        for where in ("main", "sub"):
+            for scope in ("module", "local"):
+                if where == "main" and scope == "local":
+                    continue
+                b = B()
+                show = sub("SHOW", [("X", t)], [b.print(lit("$", "show"), var("X", t)), b.let(var("X", t), bin_("+", var("X", t), lit("I", 1)))])
+                tw = fun("TW", t, [("Y", t)], [b.let(var("TW", t), bin_("+", var("Y", t), var("Y", t)))])
+                fc = fcall("TW", t, [cref("K")], 0)
+                pst = b.print(lit("$", "tw"), fc)
+                fc["sid"] = pst["id"]
+                uses = [b.call("SHOW", [cref("K")]), pst, b.print(lit("$", "k"), cref("K")), b.print(par(bin_("+", cref("K"), lit("I", 1))))]
+                decl = b.const("K", "", num(v))
+                if where == "main":
+                    main = [decl] + uses
+                    subs = [show, tw]
+                else:
+                    body = ([decl] if scope == "local" else []) + uses
+                    main = ([decl] if scope == "module" else []) + [b.call("W", []), b.print(lit("$", "end"))]
+                    subs = [show, tw, sub("W", [], body)]
+                out.append({"fam": "const-arg:%s/%s/%s" % (t, where, scope), "prog": prog(main, subs)})
+    return out
+
+
+FAMILIES = [fam_const, fam_suffix, fam_chain, fam_shadow, fam_constarg]
 
 
 def cases(tier, seed):
